@@ -225,6 +225,68 @@ pub fn check_heap(mem: &Mem, heap_reg: V, free_reg: V, roots: &[(usize, V)]) -> 
     Ok(HeapShape { frontier, l, d, r, w, counts, refs })
 }
 
+/// Tolerant variant used by the footprint monitor once the strict invariant is already broken
+/// (e.g. after a leak): best-effort frontier, list lengths and reachable set.
+pub fn loose_shape(mem: &Mem, heap_reg: V, free_reg: V, roots: &[(usize, V)]) -> Option<HeapShape> {
+    let valid = |a: u64| mem.in_heap(a) && (a - mem.heap_base) % BLOCK == 0;
+    let max_blocks = (mem.heap_cap_words / 8) as usize;
+    let mut seen: std::collections::BTreeSet<u64> = Default::default();
+    let mut d = Vec::new();
+    let mut cur = free_reg.v;
+    let frontier = loop {
+        if !valid(cur) || d.len() > max_blocks || !seen.insert(cur) {
+            return None;
+        }
+        let h = mem.peek(cur)?.v;
+        if h == 0 {
+            break cur;
+        }
+        d.push(cur);
+        cur = h;
+    };
+    let mut l = Vec::new();
+    let mut cur = heap_reg.v;
+    while valid(cur) && cur < frontier && seen.insert(cur) {
+        l.push(cur);
+        let h = mem.peek(cur)?.v;
+        if h == 0 {
+            break;
+        }
+        cur = h;
+    }
+    let mut reach = |start: Vec<u64>, seen: &mut std::collections::BTreeSet<u64>| -> usize {
+        let mut n = 0;
+        let mut work = start;
+        while let Some(b) = work.pop() {
+            if !valid(b) || b >= frontier || !seen.insert(b) {
+                continue;
+            }
+            n += 1;
+            for f in 0..3u64 {
+                if let Some(p) = mem.peek(b + 16 + 16 * f) {
+                    if p.v != 0 {
+                        work.push(p.v);
+                    }
+                }
+            }
+        }
+        n
+    };
+    let r = reach(roots.iter().map(|(_, v)| v.v).filter(|v| *v != 0).collect(), &mut seen);
+    let mut from_d = Vec::new();
+    for b in &d {
+        for f in 0..3u64 {
+            if let Some(p) = mem.peek(*b + 16 + 16 * f) {
+                if p.v != 0 {
+                    from_d.push(p.v);
+                }
+            }
+        }
+    }
+    let w = reach(from_d, &mut seen);
+    Some(HeapShape { frontier, l, d, r, w, counts: Default::default(), refs: Default::default() })
+}
+
 /// C10 state carried across markers of one execution
 #[derive(Clone, Debug, Default)]
 pub struct Footprint {
